@@ -131,6 +131,7 @@ func registerMoreIntrinsics() {
 		p := st.alloc(&StructV{f: []Value{a[0], a[1], a[2]}})
 		return ret1(IfaceV{typ: types.NewPointer(tn.Type()), val: p})
 	}
+	redirects["k8s.io/apimachinery/pkg/util/wait.PollUntilContextTimeout"] = "M_wait_PollUntilContextTimeout"
 	redirects["context.WithCancel"] = "M_ctx_WithCancel"
 	redirects["context.WithTimeout"] = "M_ctx_WithTimeout"
 	redirects["context.WithDeadline"] = "M_ctx_WithDeadline"
